@@ -66,7 +66,7 @@ pub open spec fn bad_default(h: &HelperAttributesForCompareOp, tgt: CompareOp) -
 }
 // the macro accepts trait `tgt` for this field
 pub open spec fn accept(h: &HelperAttributesForCompareOp, tgt: CompareOp) -> bool {
-    !bad_ignore(h, tgt) && (ign(h, tgt) || (!bad_default(h, tgt) && !(is_ord_like(tgt) && bad_reverse(h, tgt))))
+    !bad_ignore(h, tgt) && !(is_ord_like(tgt) && bad_reverse(h, tgt)) && (ign(h, tgt) || !bad_default(h, tgt))
 }
 pub open spec fn is_ord_like(tgt: CompareOp) -> bool { tgt == CompareOp::Ord || tgt == CompareOp::PartialOrd }
 // dataflow: the emitted per-field expression mentions exactly the user expression the precedence selects
